@@ -749,7 +749,7 @@ func (ex *Exec) specForm(st *State, name string, call *ast.CallExpr, sc *SpecCtx
 			return one(ex.boolVal("true"))
 		}
 		n := sc
-		var binders []string
+		var binders, ranges []string
 		for _, f := range lit.Type.Params.List {
 			t := ex.resolveType(f.Type, sc)
 			if t == nil {
@@ -766,6 +766,9 @@ func (ex *Exec) specForm(st *State, name string, call *ast.CallExpr, sc *SpecCtx
 				bv := fmt.Sprintf("q_%s_%d", nm.Name, ex.eng.qn)
 				binders = append(binders, "("+bv+" "+sh.Leaf+")")
 				n = n.with(nm.Name, &Val{Sh: sh, T: t, S: bv})
+				if lo, hi, ok := intRange(t); ok {
+					ranges = append(ranges, "(<= "+lo+" "+bv+")", "(<= "+bv+" "+hi+")")
+				}
 			}
 		}
 		ret := lit.Body.List[0].(*ast.ReturnStmt).Results[0]
@@ -775,7 +778,13 @@ func (ex *Exec) specForm(st *State, name string, call *ast.CallExpr, sc *SpecCtx
 		if len(binders) == 0 {
 			return one(body)
 		}
-		return one(ex.boolVal("(" + name + " (" + strings.Join(binders, " ") + ") " + body.S + ")"))
+		bs := body.S
+		if name == "forall" {
+			bs = implies(and(ranges...), bs)
+		} else {
+			bs = and(append(ranges, bs)...)
+		}
+		return one(ex.boolVal("(" + name + " (" + strings.Join(binders, " ") + ") " + bs + ")"))
 	case "in":
 		m := ex.eval(st, call.Args[0], sc)
 		k := ex.eval(st, call.Args[1], sc)
